@@ -1,0 +1,19 @@
+//go:build verif
+// +build verif
+
+// Contracts for package rsec16, checked by /verif/gocv (build tag "verif").
+
+package rsec16
+
+//@ func calculateParallelParams
+//@   props C12 C07
+//@   pure
+//@   requires totalLength >= 0 && totalLength <= 281474976710656
+//@   requires numGoroutines >= 1 && minPerGoroutineLength >= 1 && minPerGoroutineLength <= 65536
+//@   requires perGoroutineLengthDivisor >= 1 && perGoroutineLengthDivisor <= 65536
+//@   ensures perGoroutineLength >= minPerGoroutineLength
+//@   ensures perGoroutineLength % perGoroutineLengthDivisor == 0
+//@   ensures newNumGoroutines >= 0 && newNumGoroutines <= numGoroutines
+//@   ensures implies(totalLength > 0, newNumGoroutines >= 1)
+//@   ensures mathint(newNumGoroutines - 1) * mathint(perGoroutineLength) < mathint(totalLength) || totalLength == 0
+//@   ensures mathint(totalLength) <= mathint(newNumGoroutines) * mathint(perGoroutineLength)
